@@ -5,8 +5,8 @@
     `processSection_clean(_dry)` stated for a patch `patch3` that the APPLIER hands back (`r.patch = patch3`) and that need not be
     the parsed patch `patch2` — with `-R`, `apply_patch` swaps the sides of the patch it was given and the driver afterwards
     looks at the swapped one (`operation`, `format`, `newMode`, which is the OLD mode of the header).  `processSection` itself
-    looks at `o.reverse` in two places only: `guess_filepath` (not called when the file operand is given) and `isCreating`
-    (looked at only when the target cannot be read), so nothing about `o.reverse` is asked here.
+    looks at `o.reverse` in two places only: `guess_filepath` (not called when the file operand is given) and `outputPath`
+    (for a rename or copy only), so nothing about `o.reverse` is asked here.
   * `parse_diffLines_modes`: `Run.parse_diffLines` with the additional fact `patch0.oldMode = 0` (a unified header without
     mode lines states no mode on either side; under `-R` the old mode becomes the new one).
   * `noReversedD2_of_valid`: the mirror image of known finding D2 (a hunk that states `+0,0`, i.e. after reversal a context-free
